@@ -95,6 +95,11 @@ EarlyReaders == {
   P("early", <<InS, InR, Mem("l", TL), Rd("o", "l"), SLet("Signal", "p", Bin("+", ReadE("l"), Num(10))), La("set_reset", Num(1), Bin(">", S, Num(0)), Bin(">", R, Num(0)))>>, <<-3, 0, 1, 5>>)
  }
 LatchMore == {
+  \* two latches under IDENTICAL (non-inlined) set / reset conditions: the duplicated comparisons are merged, both latches must still get them
+  P("latchx", <<InS, InR, Mem("l", TL), Mem("k", "signal-K"), SWrite("l", Num(1), "set_reset", Bin(">", S, Num(0)), Bin(">", R, Num(0))),
+                SWrite("k", Num(5), "set_reset", Bin(">", S, Num(0)), Bin(">", R, Num(0))), Rd("o", "l"), Rd("p", "k")>>, <<-3, 0, 1, 5>>),
+  P("latchx", <<InS, InR, Mem("l", TL), Mem("k", "signal-K"), SWrite("l", Num(1), "set_reset", Bin(">", S, Num(0)), Bin(">", R, Num(0))),
+                SWrite("k", Num(1), "reset_set", Bin(">", S, Num(0)), Bin(">", R, Num(0))), Rd("o", "l"), Rd("p", "k")>>, <<-3, 0, 1, 5>>),
   P("latchx", <<InS, InR, Mem("l", TL), La("set_reset", Num(1), S, R), Rd("o", "l"), SLet("Signal", "p", Bin("+", ReadE("l"), Num(10)))>>, <<0, 1>>),
   P("latchx", <<InS, InR, Mem("l", ""), La("reset_set", Num(1), Bin(">", S, Num(0)), Bin(">", R, Num(0))), Rd("o", "l")>>, <<-3, 0, 1, 5>>),
   P("latchx", <<InS, InR, SIn("d", "signal-M", 5), SIn("e", "signal-E", 0), Mem("l", TL), Mem("m", "signal-M"), La("set_reset", Num(1), Bin(">", S, Num(0)), Bin(">", R, Num(0))),
